@@ -206,3 +206,5 @@ func schedWorld(stack string, chunk int) *world.World {
 			return &sched.PartStore{Name: name, Inner: ps, Chunk: chunk}
 		}})
 }
+
+func sortStrings(s []string) { sort.Strings(s) }
